@@ -444,6 +444,9 @@ def harnesses():
         "cold-readers-same-class": (clear_caches, lambda: [r_body(D, 0), r_body(D, 1)], [D.insts[0], D.insts[1]]),
         "cold-nested-vs-parent": (clear_caches, lambda: [w_body(B, 1), w_body(A, 0)], [B.golden[1], A.golden[0]]),
         "cold-writer-vs-reader": (clear_caches, lambda: [w_body(D, 1), r_body(D, 1)], [D.golden[1], D.insts[1]]),
+        # three threads (thorough only): two writers of one class and a reader of another, warm and cold
+        "warm-3-threads": (warm, lambda: [w_body(A, 0), w_body(A, 1), r_body(C, 1)], [A.golden[0], A.golden[1], C.insts[1]]),
+        "cold-3-threads": (clear_caches, lambda: [w_body(D, 0), r_body(D, 1), w_body(D, 1)], [D.golden[0], D.insts[1], D.golden[1]]),
     }
     return H
 
@@ -455,7 +458,7 @@ def observe(ex):
     return out
 
 
-def run_schedules(name, bound, opcode, acc, max_schedules=None):
+def run_schedules(name, bound, opcode, acc, max_schedules=None, part=None):
     setup, make_bodies, expected = harnesses()[name]
     files = traced_files()
     opf = OPCODE_FUNCS if opcode else ()
@@ -479,33 +482,38 @@ def run_schedules(name, bound, opcode, acc, max_schedules=None):
                 return
         acc.outcome(f"{name}: all threads golden")
 
-    st = sched.explore(make_bodies, files, bound, check, opf, setup, max_schedules)
-    # closed-form self check when point counts do not depend on the schedule (2 threads)
-    if len(st["point_counts"]) == 1 and not st["capped"]:
-        n1, n2 = next(iter(st["point_counts"]))
-        want0, want1 = 2, n1 + n2
-        got0, got1 = st["by_preemptions"].get(0, 0), st["by_preemptions"].get(1, 0)
-        if got0 != want0 or (bound >= 1 and got1 != want1):
-            raise HarnessError(f"{name}: explored {got0}/{got1} schedules with 0/1 preemptions, closed form {want0}/{want1}")
-        if bound >= 2:
-            # choose 2 preemption points: the first in the starting thread, the second in the other
-            # thread (after >=0 of its points) or back in the first thread
-            pass
+    st = sched.explore(make_bodies, files, bound, check, opf, setup, max_schedules, part)
     if st["capped"]:
-        acc.caps.append(f"{name}: schedule cap {max_schedules} hit")
+        acc.caps.append(f"{name}: schedule cap {max_schedules} hit in part {part}")
     return st
 
 
+def schedule_parts(name, opcode, nchunks):
+    """Pilot run (zero preemptions per start thread) -> list of parts (start, lo, hi) covering every first
+    switch point exactly once."""
+    setup, make_bodies, expected = harnesses()[name]
+    parts = []
+    for start in range(len(make_bodies())):
+        setup()
+        ex = sched.Scheduler(make_bodies(), traced_files(), OPCODE_FUNCS if opcode else (), start, ()).run()
+        n = ex.npoints
+        step = max(1, -(-n // nchunks))
+        for lo in range(0, n, step):
+            parts.append((start, lo, min(n, lo + step)))
+    return parts
+
+
 def _task_sched(arg):
-    name, bound, opcode, cap = arg
+    name, bound, opcode, cap, part = arg
     acc = Acc()
-    st = run_schedules(name, bound, opcode, acc, cap)
-    acc.sample({"harness": name, "preemption_bound": bound, "opcode_points": bool(opcode),
-                "schedules": st["schedules"], "by_preemptions": st["by_preemptions"],
-                "points_per_thread": sorted(st["point_counts"])[:3]})
+    st = run_schedules(name, bound, opcode, acc, cap, part)
+    if part is None or part[1] == 0:
+        acc.sample({"harness": name, "preemption_bound": bound, "opcode_points": bool(opcode), "part": part,
+                    "schedules_in_this_part": st["schedules"], "points_per_thread": sorted(st["point_counts"])[:3]})
     r = acc.result()
-    r["sched"] = {name + ("/opcode" if opcode else ""): {"schedules": st["schedules"], "by_preemptions": st["by_preemptions"],
-                                                         "max_points": st["max_points"], "bound": bound}}
+    r["sched"] = (name + ("/opcode" if opcode else ""), {"schedules": st["schedules"], "by_preemptions": st["by_preemptions"],
+                                                          "max_points": st["max_points"], "bound": bound,
+                                                          "point_counts": sorted(st["point_counts"])})
     return r
 
 
@@ -523,12 +531,16 @@ def run_c19(tier):
         hists = [()] + [(a,) for a in range(nl)] + list(itertools.product(range(nl), repeat=2))
         hists += [(a, b, c) for a in range(nl) for b in range(nl) for c in use]
     else:
+        # every history up to depth 3 over the full alphabet, every depth-4 history ending in a use operation
+        # over the sub-alphabet of the colliding pair (FetchRequest v15 and its nested FetchTopic) + clear
         L = letters()
         use = [i for i, op in enumerate(L) if op[0] in ("useW", "useR")]
         hists = [()]
         for d in range(1, 4):
             hists += list(itertools.product(range(nl), repeat=d))
-        hists += [h + (c,) for h in itertools.product(range(nl), repeat=3) for c in use]
+        pair = [i for i, op in enumerate(L) if op[0] == "clear" or op[1] in (0, 1)]
+        pair_use = [i for i in use if L[i][1] in (0, 1)]
+        hists += [h + (c,) for h in itertools.product(pair, repeat=3) for c in pair_use]
     items = list(enumerate(hists))
     run.rng.shuffle(items)
     for res in pmap(_task_hist, chunks(items, max(1, len(items) // 256))):
@@ -542,18 +554,41 @@ def run_c19(tier):
     run.rng.shuffle(order)
     for res in pmap(_task_faults, chunks(order, 24)):
         run.merge(res)
-    # part 3: schedules
+    # part 3: schedules, each harness split by (start thread, range of the first switch point)
     tasks = []
     for name in harnesses():
+        if "3-threads" in name:
+            if tier == "thorough":
+                tasks += [(name, 1, False, 200000, part) for part in schedule_parts(name, False, 6)]
+            continue
         if tier == "quick":
-            tasks.append((name, 1, False, None))
+            tasks += [(name, 1, False, None, part) for part in schedule_parts(name, False, 2)]
         else:
-            tasks.append((name, 2, False, 400000))
-            tasks.append((name, 1, True, 400000))
+            # bound 2 where the harness has few enough points for the complete bound-2 space (about 2*n1*n2
+            # schedules); the 2000-point nested-vs-parent harness stays at bound 1
+            big = name == "cold-nested-vs-parent"
+            tasks += [(name, 1 if big else 2, False, 400000, part) for part in schedule_parts(name, False, 4 if big else 24)]
+            tasks += [(name, 1, True, 200000, part) for part in schedule_parts(name, True, 4)]
+    run.rng.shuffle(tasks)
     sched_info = {}
     for res in pmap(_task_sched, tasks, mem_gb=None):
-        sched_info.update(res.pop("sched"))
+        key, info = res.pop("sched")
+        cur = sched_info.setdefault(key, {"schedules": 0, "by_preemptions": {}, "max_points": 0, "bound": info["bound"], "point_counts": set()})
+        cur["schedules"] += info["schedules"]
+        cur["max_points"] = max(cur["max_points"], info["max_points"])
+        for k, v in info["by_preemptions"].items():
+            cur["by_preemptions"][k] = cur["by_preemptions"].get(k, 0) + v
+        cur["point_counts"] |= {tuple(x) for x in info["point_counts"]}
         run.merge(res)
+    # closed-form self check per 2-thread harness whose point counts do not depend on the schedule
+    for key, cur in sched_info.items():
+        pcs = cur.pop("point_counts")
+        cur["points_per_thread"] = sorted(pcs)[:3]
+        if len(pcs) == 1 and len(next(iter(pcs))) == 2 and not any(key.split("/")[0] in c for c in run.caps):
+            n1, n2 = next(iter(pcs))
+            got0, got1 = cur["by_preemptions"].get(0, 0), cur["by_preemptions"].get(1, 0)
+            if got0 != 2 or (cur["bound"] >= 1 and got1 != n1 + n2):
+                raise HarnessError(f"{key}: explored {got0}/{got1} schedules with 0/1 preemptions, closed form 2/{n1 + n2}")
     c = run.cov
     c["states"] = nstates
     c["transitions"] = ntrans
@@ -565,13 +600,15 @@ def run_c19(tier):
         f"(1) histories over {nl} operations on a colliding class set (FetchRequest v15, its nested FetchTopic "
         "requested directly, FetchResponse v15, MetadataRequest v5): mkR/mkW/useW/useR (2 values)/failW/failR at "
         "first-middle-last call/badW/badR/clear; stateless: every history up to depth "
-        f"{2 if tier == 'quick' else 3} plus every depth-{depth} history ending in a use operation, each rebuilt "
+        f"{2 if tier == 'quick' else 3} plus every depth-{depth} history ending in a use operation"
+        + ("" if tier == "quick" else " (depth 4 over the sub-alphabet of the colliding pair)") + ", each rebuilt "
         "from cleared caches; abstract-state BFS (state = cache keys + fingerprint of reachable mutable objects, "
         "used only to merge) to a fixpoint; (2) for every class and 2 values: the stream raising at EVERY write "
         "call index and EVERY read call index, then clean calls on the same cached object; (3) 2-thread "
-        f"schedules at source-line granularity, preemption bound {1 if tier == 'quick' else 2}"
+        f"schedules at source-line granularity, preemption bound {1 if tier == 'quick' else '2 (1 for the 2000-point nested-vs-parent harness)'}"
         + ("" if tier == "quick" else ", plus opcode granularity in the scratch-buffer frames with bound 1")
-        + f", {len(harnesses())} harnesses (warm/cold, same/different/nested classes). Golden results come from the "
+        + f", {len(harnesses()) - 2} harnesses (warm/cold, same/different/nested classes; thorough adds two 3-thread harnesses at bound 1, where "
+        "the thread that continues after another ends is the lowest-numbered one unless a preemption says otherwise). Golden results come from the "
         "reference codec. Non-trivial = every history but the empty one, every fault position, every schedule"
     )
     c["exhaustive"] = not run.caps
